@@ -8,6 +8,7 @@ import (
 	"sort"
 	"strconv"
 	"strings"
+	"sync"
 	"time"
 
 	"golang.org/x/tools/go/ssa"
@@ -182,11 +183,17 @@ func cmdCheck(repo, prop, tier string) int {
 		}
 	}
 	// discharge
+	var wg sync.WaitGroup
 	for _, r := range results {
 		if r.err == nil {
-			r.vc.discharge(dir, timeout, thorough)
+			wg.Add(1)
+			go func(r *fnResult) {
+				defer wg.Done()
+				r.vc.discharge(dir, timeout, thorough)
+			}(r)
 		}
 	}
+	wg.Wait()
 	return report(p, prop, tier, seed, results, missing, t0, dir)
 }
 
